@@ -28,8 +28,12 @@ class C12(Prop):
                           top_modes=["standalone", "definition"], data=False, noref_children=True)
 
     def strategy(self, tier):
+        edit = st.fixed_dictionaries({"k": st.sampled_from(["disc1", "discN", "conn", "conn"]),
+                                      "i": st.integers(0, 60), "j": st.integers(0, 60),
+                                      "proxy": st.booleans()})
         return st.fixed_dictionaries({"design": gen_ir.recipes(self.cfg(tier)),
-                                      "sample": st.integers(0, 1000)})
+                                      "sample": st.integers(0, 1000),
+                                      "edits": st.one_of(st.just([]), st.lists(edit, max_size=3))})
 
     def fixed_cases(self, tier):
         return gen_ir.example_cases(tier, quick_limit=4000, thorough_limit=9000)
@@ -50,6 +54,38 @@ class C12(Prop):
             pre = model.wf(nl, strict=True)
             if pre:
                 raise RuntimeError("generator produced ill-formed netlist: %r" % pre[:3])
+        # connections made and cut through the public API (registered pins or (instance, inner pin)
+        # proxies) before tracing: the property speaks of all netlists, not only freshly built ones
+        for e in case.get("edits") or []:
+            ops_ = [(I, op) for L in nl.libraries for D in L.definitions for I in D.children
+                    for op in I.pins.values()]
+            if not ops_:
+                break
+            arg = lambda I, op: (sdn.OuterPin.from_instance_and_inner_pin(I, op.inner_pin)  # noqa
+                                 if e["proxy"] else op)
+            try:
+                if e["k"] in ("disc1", "discN"):
+                    conn = [(I, op) for I, op in ops_ if op.wire is not None]
+                    if not conn:
+                        continue
+                    I, op = conn[e["i"] % len(conn)]
+                    w = op.wire
+                    if e["k"] == "disc1":
+                        w.disconnect_pin(arg(I, op))
+                    else:
+                        w.disconnect_pins_from([arg(I, op)])
+                else:
+                    free = [(I, op) for I, op in ops_ if op.wire is None and I.parent is not None]
+                    if not free:
+                        continue
+                    I, op = free[e["i"] % len(free)]
+                    ws = [w for C in I.parent.cables for w in C.wires]
+                    if not ws:
+                        continue
+                    ws[e["j"] % len(ws)].connect_pin(arg(I, op))
+                res.label("edited-before-tracing")
+            except Exception as ex:  # noqa (whether an edit may be refused is C01/C14's business)
+                res.label("edit-refused")
         M = HModel(nl)
         if len(M.paths) > 300:
             res.label("paths>300")
